@@ -71,8 +71,11 @@ def run(tier, seed):
         f = S.RandomFunction(input_dim=idim, output_dim=odim, num_terms=nt, center=center, amplitude=amp, complex=cplx).gen_sample()
         key = (idim, odim, nt, center, amp, cplx)
         pts = [tuple(rnd.uniform(-20, 20) for _ in range(idim)) for _ in range(25)]
-        first = [f(*p) for p in pts]
-        kept = [np.array(np.asarray(v).view(np.ndarray), copy=True) for v in first]
+        first, kept = [], []
+        for p in pts:
+            v = f(*p)
+            first.append(v)
+            kept.append(np.array(np.asarray(v).view(np.ndarray), copy=True))     # value as returned, copied at once
         again = [f(*p) for p in pts]
         bad = None
         for p, v, k2, w in zip(pts, first, kept, again):
